@@ -46,6 +46,11 @@ FLAVOURS = {
                             client_cred="c_ecdsa", req_cert=True),
     "ed25519": dict(flavour="cert", cred="ed25519", client_cred="c_ed25519",
                     req_cert=True),
+    # ECDSA on both sides below TLS 1.3 (a server may then list no RSA
+    # algorithm at all in its CertificateRequest)
+    "ecdsa-mutual-tls12": dict(
+        flavour="cert", cred="ecdsa", client_cred="c_ecdsa", req_cert=True,
+        base=(("maxVersion", ("tls12", (3, 3), True)),)),
     "ed448": dict(flavour="cert", cred="ed448"),
     "dsa": dict(flavour="cert", cred="dsa", client_cred="c_dsa",
                 req_cert=True),
